@@ -159,7 +159,8 @@ impl FdlApplication for TrafficApp {
         let mut kind = self.rng.pick(&self.cfg.kinds).clone();
         if high_prio_only == HighPrioOnly::Yes && self.cfg.honour_hp {
             kind = match kind {
-                ReqKind::SdnLow | ReqKind::SdnHigh => ReqKind::SdnHigh,
+                ReqKind::SdnLow | ReqKind::SdnHigh | ReqKind::TimeEvent | ReqKind::ClockValue => ReqKind::SdnHigh,
+                ReqKind::SdaLow | ReqKind::SdaHigh => ReqKind::SdaHigh,
                 _ => ReqKind::SrdHigh,
             };
         }
@@ -174,6 +175,13 @@ impl FdlApplication for TrafficApp {
             ReqKind::SdnHigh => RequestType::SdnHigh,
             ReqKind::SrdLow => RequestType::SrdLow,
             ReqKind::SrdHigh => RequestType::SrdHigh,
+            ReqKind::SdaLow => RequestType::SdaLow,
+            ReqKind::SdaHigh => RequestType::SdaHigh,
+            ReqKind::Ident => RequestType::Ident,
+            ReqKind::LsapStatus => RequestType::LsapStatus,
+            ReqKind::MulticastSrd => RequestType::MulticastSrd,
+            ReqKind::TimeEvent => RequestType::TimeEvent,
+            ReqKind::ClockValue => RequestType::ClockValue,
             ReqKind::FdlStatus => unreachable!(),
         };
         let n = self.rng.range(0, self.cfg.max_pdu as u64) as usize;
